@@ -484,6 +484,29 @@ func ExtendVoucher[T protocol.PublicKeyOrChain](v *Voucher, owner crypto.Signer,
 		return nil, fmt.Errorf("owner key for signing does not match the last signature of the voucher to be extended")
 	}
 
+	// The next owner key must have the same type and size as well, because it
+	// will be labeled with the manufacturer key's type and verified by the
+	// device with that one algorithm
+	var nextOwnerPubKey crypto.PublicKey = nextOwner
+	if chain, ok := any(nextOwner).([]*x509.Certificate); ok {
+		if len(chain) == 0 || chain[0] == nil {
+			return nil, fmt.Errorf("next owner certificate chain is empty")
+		}
+		nextOwnerPubKey = chain[0].PublicKey
+	}
+	switch nextPub := nextOwnerPubKey.(type) {
+	case *ecdsa.PublicKey:
+		if ownerPub, ok := ownerPubKey.(*ecdsa.PublicKey); !ok || ownerPub.Curve != nextPub.Curve {
+			return nil, fmt.Errorf("next owner key for voucher extension did not match the type and size/curve of the manufacturer key")
+		}
+	case *rsa.PublicKey:
+		if ownerPub, ok := ownerPubKey.(*rsa.PublicKey); !ok || ownerPub.Size() != nextPub.Size() {
+			return nil, fmt.Errorf("next owner key for voucher extension did not match the type and size/curve of the manufacturer key")
+		}
+	default:
+		return nil, fmt.Errorf("unsupported next owner key type: %T", nextPub)
+	}
+
 	// Create the next owner PublicKey structure
 	asCOSE := v.Header.Val.ManufacturerKey.Encoding == protocol.CoseKeyEnc
 	if _, ok := any(nextOwner).([]*x509.Certificate); ok {
